@@ -112,3 +112,27 @@ Proof.
   - (* RTryRecv *)
     destruct rp as [| |f|f|f|f v|f| |]; try discriminate. injection Hs as <-. constructor; finish.
 Qed.
+
+(* ---------------- the data invariant ---------------- *)
+
+Lemma delivered_values_snoc s r :
+  concat (map ret_val (delivered s ++ [r])) = delivered_values s ++ ret_val r.
+Proof. unfold delivered_values. rewrite map_app, concat_app. cbn [map concat]. rewrite app_nil_r. reflexivity. Qed.
+
+Record DInv (s : state) : Prop := mkDInv {
+  di_eq : delivered_values s ++ in_flight s ++ slot_list s = merged s;
+  di_none : (In (RecvRet None) (delivered s) \/ exists f, r_pc s = RReturning f None) ->
+            sender_dropped s = true /\ slot s = None /\ delivered_values s = merged s;
+  di_nonempty : (forall l, slot s = Some l -> l <> []) /\
+                (forall f l, r_pc s = RReturning f (Some l) -> l <> []) /\
+                (forall l, In (RecvRet (Some l)) (delivered s) -> l <> [])
+}.
+
+Lemma dinv_init : DInv init.
+Proof.
+  constructor; cbn.
+  - reflexivity.
+  - intros [[]|[f H]]; discriminate.
+  - repeat split; intros; try discriminate; contradiction.
+Qed.
+
